@@ -44,6 +44,11 @@ MUT = [
  ('R2 same_start snaps the window end to the sample grid', M, [("        end = kwargs.get('end', 1)\n", "        end = kwargs.get('end', 1)\n        end = int(end / self.dt) * self.dt\n")], 1),
  ('R2 shallow __deepcopy__ + in-place add_constant', S, [('    def add_constant(self, constant):', '    def __deepcopy__(self, memo):\n        import copy\n        return copy.copy(self)\n\n    def add_constant(self, constant):'), ('        self.reset_values(self.values + constant)\n', '        self._values += constant\n        self.clear_cache()\n')], 1),
  ('R2 time_match compares against signal 0 instead of the master', M, [('            bm = self.signal_by_index(self.master_index).values[:length_check]', '            bm = self.signal_by_index(0).values[:length_check]')], 1),
+ # ---- wave 5: array-valued named attributes, extreme but valid scales
+ ('W5 named array-valued parameter reduced to its last element', M, [('            pvalues.append(getattr(new_sig, parameter))', '            val = getattr(new_sig, parameter)\n            pvalues.append(val[-1] if hasattr(val, "__len__") else val)')], 1),
+ ('W5 combine skips a component whose ENERGY (sum of squares) is zero', M, [('    combo = acc_sig_ns.values * np.cos(off_rad) + acc_sig_we.values * np.sin(off_rad)', '    combo = acc_sig_ns.values * np.cos(off_rad) + acc_sig_we.values * np.sin(off_rad)\n    if np.sum(np.asarray(acc_sig_we.values, dtype=float) ** 2) == 0:\n        combo = acc_sig_ns.values * np.cos(off_rad)')], 1),
+ ('W5 same_start zero test through a product (diff*diff == 0)', M, [('                diff = slave_average - master_average\n', '                diff = slave_average - master_average\n                if diff * diff == 0:\n                    continue\n')], 1),
+ ('W5 lag search ranks by the 4th power of the residual (overflows above 1e77)', M, [('squares = (bm[0:-steps] - om[0:-steps]) ** 2', 'squares = (bm[0:-steps] - om[0:-steps]) ** 4'), ('squares = (om[i:-steps + i] - bm[0:-steps]) ** 2', 'squares = (om[i:-steps + i] - bm[0:-steps]) ** 4'), ('squares = (bm[i:-steps + i] - om[0:-steps]) ** 2', 'squares = (bm[i:-steps + i] - om[0:-steps]) ** 4')], 1),
  # ---- behaviour-preserving edits: expect exit 0
  ('CONTROL deg2rad + reordered product', M, [('off_rad = np.radians(angle)', 'off_rad = np.deg2rad(angle)'), ('acc_sig_ns.values * np.cos(off_rad) + acc_sig_we.values * np.sin(off_rad)', 'np.cos(off_rad) * acc_sig_ns.values + np.sin(off_rad) * acc_sig_we.values')], 0),
  ('CONTROL m_temp via concatenate/full, np.sum', M, [('m_temp = [om[0]] * abs(min_ind) + list(om[:min_ind])', 'm_temp = np.concatenate([np.full(abs(min_ind), om[0]), om[:min_ind]])'), ('m_temp = list(om[min_ind:]) + [om[-1]] * abs(min_ind)', 'm_temp = np.concatenate([om[min_ind:], np.full(abs(min_ind), om[-1])])'), ('diff = sum(squares)', 'diff = np.sum(squares)')], 0),
